@@ -24,8 +24,19 @@ static int OPT;
 typedef struct { char *name; unsigned char *v; size_t vl; } ent_t;
 static ent_t *M; static int MN, MCAP;
 
-static const char *NAMES[] = {"a", "A", "b", "B", "ab", "aB", "Ab", "zz"};
-#define NNAMES 8
+/* the last two names are replaced at start-up by a pair of distinct names with identical full 32-bit
+ * MurmurHash3 values (birthday search with the reference hash): the table matches names by (hash, strcmp) */
+static char COLLA[16] = "c1", COLLB[16] = "c2";
+static const char *NAMES[] = {"a", "A", "b", "B", "ab", "aB", "Ab", "zz", COLLA, COLLB};
+#define NNAMES 10
+static int cmp_u64(const void *a, const void *b) { uint64_t x = *(const uint64_t *)a, y = *(const uint64_t *)b; return x < y ? -1 : x > y; }
+static void find_collision(void) {
+    int N = 300000; uint64_t *h = hm_alloc(sizeof(uint64_t) * (size_t)N); char b[16];
+    for (int i = 0; i < N; i++) { int l = snprintf(b, sizeof b, "user%d", i); h[i] = (uint64_t)ref_murmur3_32(b, (size_t)l) << 32 | (uint32_t)i; }
+    qsort(h, (size_t)N, sizeof(uint64_t), cmp_u64);
+    for (int i = 0; i + 1 < N; i++) if ((h[i] >> 32) == (h[i + 1] >> 32)) { snprintf(COLLA, 16, "user%u", (unsigned)(h[i] & 0xffffffffu)); snprintf(COLLB, 16, "user%u", (unsigned)(h[i + 1] & 0xffffffffu)); vf_count("full_hash_collision_pair_in_name_set", 1); break; }
+    hm_free(h);
+}
 
 static bool judge(const char *prop, const char *key, const char *fmt, ...) __attribute__((format(printf, 3, 4)));
 static bool judge(const char *prop, const char *key, const char *fmt, ...) {
@@ -259,6 +270,7 @@ int main(int argc, char **argv) {
     if (P != 8 && P != 11) { fprintf(stderr, "h_listtbl: unsupported property %s\n", VF.prop); return 2; }
     vf_ledger_enable(true);
     long ncases = vf_arg_long("cases", 960);
+    find_collision();
     for (long c = 0; c < ncases; c++) if (vf_mine(c)) history(c);
     return vf_finish() ? 1 : 0;
 }
